@@ -42,6 +42,8 @@ type Program struct {
 	mutableField   map[*types.Var]bool
 	sourcePkg      map[*types.Package]bool
 	mutOnce        sync.Once
+	funcVars       map[*ssa.Global]*ssa.Function
+	funcVarOnce    sync.Once
 }
 
 // callAssert: a ghost predicate that must hold at a particular call inside a function.
@@ -218,6 +220,17 @@ func (P *Program) IsGhost(fn *ssa.Function) bool {
 //	Name$1          anonymous function
 //	full/import/path.Name etc.
 func (P *Program) FindFunc(pkg *packages.Package, target string) (*ssa.Function, error) {
+	if strings.HasPrefix(target, "var:") && pkg != nil {
+		// the function literal a package-level variable is initialised with (and never re-assigned)
+		if sp := P.ssaPkg[pkg.PkgPath]; sp != nil {
+			if g, ok := sp.Members[target[4:]].(*ssa.Global); ok {
+				if fn := P.funcVar(g); fn != nil {
+					return fn, nil
+				}
+			}
+		}
+		return nil, fmt.Errorf("contract-target-missing: %s (package %s): not a function variable assigned only at initialisation", target, pkgPathOf(pkg))
+	}
 	cands := []string{target}
 	if pkg != nil {
 		if strings.HasPrefix(target, "(*") {
@@ -465,4 +478,58 @@ func (P *Program) Pos(p token.Pos) string {
 	}
 	pos := P.fset.Position(p)
 	return fmt.Sprintf("%s:%d", strings.TrimPrefix(pos.Filename, "/repo/"), pos.Line)
+}
+
+// funcVar: for a package-level variable of function type that is assigned exactly once, in the
+// package initialiser, to a function literal or named function, and never anywhere else in the loaded
+// non-ghost source: that function. Calls through such a variable are calls of that function.
+func (P *Program) funcVar(g *ssa.Global) *ssa.Function {
+	P.funcVarOnce.Do(func() {
+		P.funcVars = map[*ssa.Global]*ssa.Function{}
+		bad := map[*ssa.Global]bool{}
+		for fn := range ssautil.AllFunctions(P.prog) {
+			if fn.Blocks == nil || P.IsGhost(fn) {
+				continue
+			}
+			isInit := fn.Name() == "init" && fn.Parent() == nil
+			for _, b := range fn.Blocks {
+				for _, in := range b.Instrs {
+					switch x := in.(type) {
+					case *ssa.Store:
+						gg, ok := x.Addr.(*ssa.Global)
+						if !ok {
+							continue
+						}
+						var f *ssa.Function
+						switch v := x.Val.(type) {
+						case *ssa.Function:
+							f = v
+						case *ssa.MakeClosure:
+							if len(v.Bindings) == 0 {
+								f, _ = v.Fn.(*ssa.Function)
+							}
+						}
+						if !isInit || f == nil || P.funcVars[gg] != nil {
+							bad[gg] = true
+						} else {
+							P.funcVars[gg] = f
+						}
+					default:
+						// the address of the variable used for anything but a load
+						for _, op := range in.Operands(nil) {
+							if gg, ok := (*op).(*ssa.Global); ok {
+								if u, isLoad := in.(*ssa.UnOp); !(isLoad && u.Op == token.MUL) {
+									bad[gg] = true
+								}
+							}
+						}
+					}
+				}
+			}
+		}
+		for gg := range bad {
+			delete(P.funcVars, gg)
+		}
+	})
+	return P.funcVars[g]
 }
